@@ -75,13 +75,26 @@ def split (s : Str) : Parts :=
   let (query, s4) := splitQuery (from_ pathStop s2)
   { scheme, authority, path, query, fragment := splitFragment s4 }
 
+/-- `scheme ":"` if defined -/
+def schemePart : Option Str → Str
+  | some s => s ++ [cColon]
+  | none => []
+/-- `"//" authority` if defined -/
+def authorityPart : Option Str → Str
+  | some a => [cSlash, cSlash] ++ a
+  | none => []
+/-- `"?" query` if defined -/
+def queryPart : Option Str → Str
+  | some q => cQuest :: q
+  | none => []
+/-- `"#" fragment` if defined -/
+def fragmentPart : Option Str → Str
+  | some f => cHash :: f
+  | none => []
+
 /-- §5.3 component recomposition -/
 def recompose (p : Parts) : Str :=
-  (match p.scheme with | some s => s ++ [cColon] | none => []) ++
-  (match p.authority with | some a => [cSlash, cSlash] ++ a | none => []) ++
-  p.path ++
-  (match p.query with | some q => cQuest :: q | none => []) ++
-  (match p.fragment with | some f => cHash :: f | none => [])
+  schemePart p.scheme ++ authorityPart p.authority ++ p.path ++ queryPart p.query ++ fragmentPart p.fragment
 
 /-- the text of `s` up to and including its last `/` (empty when there is none) -/
 def dirOf (s : Str) : Str := (s.reverse.dropWhile (fun c => c != cSlash)).reverse
